@@ -277,6 +277,15 @@ static void run_recover(bool cauchy, int m, int k, const std::vector<int> &erase
 	for (int x = 0; x < ne; x++) rp[x] = rec[x].data();
 	ec_init_tables(k, ne, dec.data(), tbl.data());
 	ec_encode_data((int) len, k, ne, tbl.data(), sp.data(), rp.data());
+	// the single-output form of the same computation (what a caller uses to rebuild one block): needs the 32-byte table form and len >= 32
+	if (len >= 32) {
+		std::vector<uint8_t> t32((size_t) 32 * k);
+		ec_init_tables_base(k, 1, dec.data(), t32.data());
+		std::vector<uint8_t> one(len + 64, 0xEE);
+		gf_vect_dot_prod((int) len, k, t32.data(), sp.data(), one.data());
+		PBT_CHECK(memcmp(one.data(), frag[erased[0]].data(), len) == 0, key, "%s m=%d k=%d: gf_vect_dot_prod does not reproduce fragment %d (len=%zu)", cauchy ? "Cauchy" : "RS", m, k, erased[0], len);
+		for (size_t q = len; q < len + 64; q++) PBT_CHECK(one[q] == 0xEE, key, "gf_vect_dot_prod (len=%zu) wrote %zu bytes past the end of the block being rebuilt", len, q - len + 1);
+	}
 	for (int x = 0; x < ne; x++)
 		PBT_CHECK(memcmp(rec[x].data(), frag[erased[x]].data(), len) == 0, key, "%s m=%d k=%d erasures {%s}: fragment %d is not reproduced bit for bit (len=%zu)", cauchy ? "Cauchy" : "RS", m, k, es.c_str(), erased[x], len);
 }
@@ -307,7 +316,7 @@ static void body_recover(Tape &t, Ctx &c) {
 		erased.push_back(e);
 	}
 	std::sort(erased.begin(), erased.end());
-	size_t len = (size_t) t.pick<uint32_t>({1, 16, 31, 64, 100, 257, 1024, 33, 95, 4096});
+	size_t len = (size_t) t.pick<uint32_t>({1, 16, 31, 64, 100, 257, 1024, 33, 95, 4096, 48, 63});
 	if ((size_t) k * len * ne > 4000000) len = 64;
 	uint64_t dseed = t.bits64();
 	// the erased blocks are rebuilt by whatever table/encode kernels the dispatcher picks for a generated processor
